@@ -91,6 +91,13 @@ class G:
             return ["V", self.nonnil(d + 1)]      # the operand is observed (Unwind/Is/As) before it is used
         return self.nonnil(d)
 
+    def addend(self, rng):
+        """what is handed to Collector.Add: any term, now and then an inner node of a stack (what errors.Unwrap of
+        a *Stack returns) directly"""
+        if rng.random() < 0.12:
+            return ["UWS", ["S"] + [self.term(2) for _ in range(rng.choice([2, 3, 4]))]]
+        return self.term(1)
+
     def kids(self, d):
         n = self.rng.choice([0, 1, 1, 2, 2, 3, 4])
         out = [self.term(d) for _ in range(n)]
@@ -106,12 +113,12 @@ def gen(rng, tier, open_keys):
     for i in range(n):
         g = G(rng, rng.choice([1, 2, 3, 4, 6]) if tier == "quick" else rng.choice([2, 4, 6, 8]))
         if i % 8 == 7:
-            terms = [g.term(1) for _ in range(rng.randrange(0, 9))]
+            terms = [g.addend(rng) for _ in range(rng.randrange(0, 9))]
             out.append(C.sx(["collector", g.ids + [999, 1000]] + terms))
         elif i % 8 == 3:
             steps = []
             for _ in range(rng.randrange(2, 10)):
-                steps.append(["add", ("NS" if rng.random() < 0.08 else g.term(1))] if rng.random() < 0.55 else [rng.choice(["resolve", "iter", "iter", "len"])])
+                steps.append(["add", ("NS" if rng.random() < 0.08 else g.addend(rng))] if rng.random() < 0.55 else [rng.choice(["resolve", "iter", "iter", "len"])])
             steps.append([rng.choice(["resolve", "iter"])])
             out.append(C.sx(["colseq", g.ids] + steps))
         else:
